@@ -29,3 +29,10 @@ func init() {
 	prop("C03", "C03-R4")
 	prop("C04", "C04-R5")
 }
+
+func init() {
+	prop("C04", "C04-R1", "C04-R2")
+	prop("C16", "C16-R1", "C16-R2", "C05-R1")
+	prop("C05", "C16-R1", "C04-R1", "C04-R2")
+	prop("C15", "C15-R1", "C15-R2", "C15-R3")
+}
